@@ -174,7 +174,7 @@ static const std::vector<Rep>& reps()
         { "earr", "array", true, { "%r_earr = NIL", "%r_earr[1] = 1", "%r_earr[1] = NIL" }, {} },
         { "ca123", "carr", true, { "%r_ca123 = 1::2::3" }, {} },
         { "cal", "carr", true, { "%r_cal = local::%r_lent::%r_lpl" }, { "lent", "lpl" } },
-        { "grp", "cont", true, { "if (!%r_g1) { %r_g1 = spawn SimpleEntity }", "%r_g1 targetname \"g\"",
+        { "grp", "carr", true, { "if (!%r_g1) { %r_g1 = spawn SimpleEntity }", "%r_g1 targetname \"g\"",
                                   "if (!%r_g2) { %r_g2 = spawn SimpleEntity }", "%r_g2 targetname \"g\"", "%r_grp = $g" }, {} },
         { "ptr", "ptr", true, { "%r_ptr = thread waiter" }, {} },
     };
